@@ -46,6 +46,7 @@ def check(ctx):
     r06_7(ctx, m)
     r06_8(ctx, m)
     r06_9(ctx, m)
+    r06_10(ctx, m)
     ctx.not_decided += [
         "that articulation points / biconnected components / the DFS order are the true ones on every graph (C15)",
         "independence from set/dict iteration order inside biccs (hash randomisation) beyond the orientation fix-up",
@@ -555,3 +556,39 @@ def r06_9(ctx, m):
         empty = (isinstance(flag, ast.Call) and norm(flag.func) in ("set", "list", "dict", "tuple", "frozenset") and not flag.args and not flag.keywords) or (isinstance(flag, (ast.List, ast.Tuple, ast.Set, ast.Dict)) and not (flag.elts if not isinstance(flag, ast.Dict) else flag.keys)) or (isinstance(flag, ast.Constant) and not flag.value)
         ctx.check(not empty, "R06.9", dec.where(r), f"a return that reports an ordered component hands the caller a non-empty value in the position it tests for success (position {m.flag_pos})", key_of(dec, f"ok-flag-empty:{norm(flag)}:{r.value.elts[m.flag_pos + 1:] and norm(r.value.elts[-2])[:30]}"), flag=norm(flag))
     ctx.require_count("R06.9", n, 1, dec.where(), "returns that report an ordered component")
+
+
+def r06_10(ctx, m):
+    """The collapsed (scaffold) graph holds the articulation points under their own names plus one synthetic node per
+    bubble.  A synthetic id must be one that no segment can have: a GFA segment name contains no blank, so an id built
+    around a literal with a blank is safe; the bare bubble index is not (segments named 0, 1, 2, ... are common)."""
+    dec = m.dec
+    from .. import tmpl
+    from ..core import resolve_expr
+
+    synth = []
+    # the collapsed graph may be built in a helper of the ordering function
+    for fn in [f_ for f_ in closure(ctx.repo, dec, depth=2) if f_.module is dec.module]:
+        for c in walk_own(fn.node):
+            if not (isinstance(c, ast.Call) and isinstance(c.func, ast.Attribute) and c.func.attr == "add_node" and len(c.args) == 1):
+                continue
+            a = c.args[0]
+            # the articulation points themselves: `for n in artic_points: g.add_node(n)`
+            is_loop_var = any(isinstance(l, ast.For) and norm(l.target) == norm(a) and any(x is c for x in ast.walk(l)) for l in walk_own(fn.node))
+            if not is_loop_var:
+                synth.append((fn, c))
+    ctx.require_count("R06.10", len(synth), 1, dec.where(), "synthetic (bubble) nodes added to the collapsed graph")
+    for dec, c in synth:
+        a = c.args[0]
+        src = ast.parse(resolve_expr(dec.node, a), mode="eval").body
+        try:
+            parts = tmpl.of_expr(src)
+        except tmpl.TemplateError:
+            parts = None
+        lits = "".join(p[1] for p in parts if p[0] == "lit") if parts else ""
+        if any(ch in lits for ch in " \t"):
+            ctx.holds("R06.10", dec.where(c), f"a bubble's id in the collapsed graph (`{norm(src)[:50]}`) contains a blank: no segment name can equal it")
+        elif isinstance(src, ast.Call) and norm(src.func) == "str" or (parts is not None and not lits):
+            ctx.violated("R06.10", dec.where(c), f"a bubble is entered into the collapsed graph under `{norm(a)[:50]}`, the bare index: in a graph whose segments are named 0, 1, 2, ... it coincides with an articulation point, the two are merged and the chain is no longer recognised (the chromosome is skipped or mis-ordered)", key_of(dec, f"bubble-id-collides:{norm(a)[:40]}"))
+        else:
+            raise AnalysisError("R06.10", dec.where(c), f"cannot decide whether the synthetic id `{norm(src)[:60]}` can coincide with a segment name")
